@@ -15,6 +15,7 @@ import (
 	"path/filepath"
 	"strings"
 	"sync"
+	"sync/atomic"
 	"syscall"
 	"time"
 )
@@ -45,6 +46,7 @@ type instance struct {
 	logPath string
 	api     string // host:port of the API server
 	repl    string // host:port of the replication server (leader only)
+	node    string // memberlist node name, unique per process start: identifies *our* server
 	cmd     *exec.Cmd
 	done    chan struct{}
 	waitErr error
@@ -52,11 +54,10 @@ type instance struct {
 }
 
 var (
-	procMu   sync.Mutex
-	procs    = map[*instance]struct{}{}
-	portMu   sync.Mutex
-	recent   = map[int]time.Time{}
-	exitOnce sync.Once
+	procMu sync.Mutex
+	procs  = map[*instance]struct{}{}
+	portMu sync.Mutex
+	recent = map[int]time.Time{}
 )
 
 func scratchDir() string {
@@ -73,7 +74,10 @@ func scratchDir() string {
 	return d
 }
 
-var ownScratch string
+var (
+	ownScratch   string
+	startRetries atomic.Int64
+)
 
 // installSignalCleanup makes sure children die when the driver is interrupted.
 func installSignalCleanup() {
@@ -146,7 +150,7 @@ func freePorts(n int) ([]int, error) {
 	return out, nil
 }
 
-func (s instSpec) build(dir string, ports []int) (args []string, api, repl string) {
+func (s instSpec) build(dir, node string, ports []int) (args []string, api, repl string) {
 	hp := func(i int) string { return fmt.Sprintf("127.0.0.1:%d", ports[i]) }
 	scheme := "http"
 	if s.TLS != nil {
@@ -163,7 +167,7 @@ func (s instSpec) build(dir string, ports []int) (args []string, api, repl strin
 		"--raft.state-machine-dir=" + filepath.Join(dir, "sm"),
 		"--raft.rtt=5ms",
 		"--memberlist.address=" + hp(2),
-		"--memberlist.node-name=" + s.Name,
+		"--memberlist.node-name=" + node,
 		"--rest.address=http://" + hp(3),
 		"--maintenance.token=" + s.MaintToken,
 		"--tables.token=" + s.TablesToken,
@@ -228,10 +232,17 @@ attempts:
 			}
 		}
 		in := &instance{spec: spec, dir: dir, logPath: filepath.Join(dir, "log.txt"), done: make(chan struct{})}
-		in.args, in.api, in.repl = spec.build(dir, ports)
+		in.node = fmt.Sprintf("%s-%d-%d", spec.Name, os.Getpid(), attempt)
+		in.args, in.api, in.repl = spec.build(dir, in.node, ports)
 		logf, err := os.Create(in.logPath)
 		if err != nil {
 			return nil, err
+		}
+		if os.Getenv("C17_SELFTEST_CLASH") != "" && attempt == 0 {
+			// self-test knob of the harness: occupy the API port so that the retry path is taken
+			if l, err := net.Listen("tcp", in.api); err == nil {
+				defer l.Close()
+			}
 		}
 		cmd := exec.Command(bin, in.args...)
 		cmd.Dir = dir // viper also looks for ./config.*
@@ -254,19 +265,20 @@ attempts:
 		for {
 			select {
 			case <-in.done:
-				tail := in.logTail(30)
+				full := in.logAll()
 				in.stop()
-				if isAddrClash(tail) {
-					lastErr = fmt.Errorf("port clash: %s", lastLine(tail))
+				if isAddrClash(full) {
+					lastErr = fmt.Errorf("port clash: %s", errorLines(full))
+					startRetries.Add(1)
 					continue attempts
 				}
-				return nil, fmt.Errorf("%w: %v\n%s", errStartFailed, in.waitErr, tail)
+				return nil, fmt.Errorf("%w: %v: %s", errStartFailed, in.waitErr, errorLines(full))
 			default:
 			}
 			ctx, cancel := context.WithTimeout(context.Background(), 3*time.Second)
 			rerr = ready(ctx, in)
 			cancel()
-			if rerr == nil {
+			if rerr == nil && in.alive() {
 				return in, nil
 			}
 			if time.Now().After(deadline) {
@@ -283,7 +295,35 @@ attempts:
 func isAddrClash(log string) bool {
 	l := strings.ToLower(log)
 	return strings.Contains(l, "address already in use") || strings.Contains(l, "bind:") ||
-		strings.Contains(l, "failed to start tcp listener") || strings.Contains(l, "failed to create memberlist")
+		strings.Contains(l, "failed to start tcp listener") || strings.Contains(l, "failed to obtain an address")
+}
+
+// errorLines extracts what the binary reported before its usage text.
+func errorLines(log string) string {
+	var out []string
+	for _, l := range strings.Split(log, "\n") {
+		if strings.HasPrefix(l, "Error:") || strings.Contains(l, "\tERROR\t") || strings.Contains(l, "panic") {
+			if len(l) > 300 {
+				l = l[:300]
+			}
+			out = append(out, l)
+		}
+	}
+	if len(out) > 4 {
+		out = out[len(out)-4:]
+	}
+	if len(out) == 0 {
+		return lastLine(log)
+	}
+	return strings.Join(out, " | ")
+}
+
+func (in *instance) logAll() string {
+	b, _ := os.ReadFile(in.logPath)
+	if len(b) > 1<<20 {
+		b = b[:1<<20]
+	}
+	return string(b)
 }
 
 func lastLine(s string) string {
@@ -339,8 +379,6 @@ func (in *instance) stop() string {
 			how = "needed SIGKILL"
 		}
 	}
-	// anything left in the group
-	_ = syscall.Kill(-in.cmd.Process.Pid, syscall.SIGKILL)
 	if in.waitErr != nil {
 		how += " (" + in.waitErr.Error() + ")"
 	} else {
